@@ -343,8 +343,13 @@ func runFault(c FaultCase, model *Model, lens []int, off int, fk faultKind, late
 	}
 	rt := RunRead(conn, c.Reads, len(model.Msgs)+2, lens, later)
 	if !tr.ReadFaultFired() {
-		// The stream's own end was reached first (offset == len and the
-		// reader stopped early): nothing to judge beyond C03.
+		// The stream's own end was reached first (offset == len and the reader
+		// stopped at the close frame).  Reading must then have got through every
+		// message: a reader that gives up before the transport fails has lost
+		// messages that had arrived.
+		if len(rt.Msgs) < len(model.Msgs) {
+			return fmt.Errorf("reading stopped with %v after %d of the %d messages although the transport had not failed yet (fault armed at offset %d of %d): messages that had arrived were not reported", rt.Final, len(rt.Msgs), len(model.Msgs), off, len(model.Wire))
+		}
 		return nil
 	}
 	a := off
